@@ -111,7 +111,9 @@ func scenarioStart(c *hlib.RunCtx) *hlib.Violation {
 	os.MkdirAll(tele, 0777)
 	switch modeKind {
 	case 0:
-		os.WriteFile(filepath.Join(tele, "mode"), []byte(mode+" 2024-01-01"), 0666)
+		// as the commands write it, or written by hand (no date, white space around it)
+		content := []string{mode + " 2024-01-01", mode, mode + "\n", mode + " 2024-01-01\n", mode + "\r\n", " " + mode, mode + " "}[t.Biased(7, 1, 2)]
+		os.WriteFile(filepath.Join(tele, "mode"), []byte(content), 0666)
 	case 1:
 		mode = "local"
 	case 2:
